@@ -58,6 +58,8 @@ def expected_entry(node, typed):
             e["age"] = d.age
     elif isinstance(d, DictWrapper):
         e = dict(d._dict)
+    elif type(d).__name__ == "FileSystemEntry":
+        e = {"n": d.name, "d": True} if d.is_dir else {"n": d.name, "s": d.size, "m": d.mdate}
     else:
         raise TypeError(d)
     if typed:
@@ -174,7 +176,7 @@ def run_writer(case, res):
             typed = case["flavour"].startswith("typed")
             import copy
 
-            km = copy.deepcopy(sergen.KEY_MAPS[case["km"]])
+            km = sergen.key_map_for(case["flavour"], case["km"])
             vm = copy.deepcopy(sergen.VALUE_MAPS[case["vm"]])
             user_meta = {"foo": "bar"}
             fp = io.StringIO()
